@@ -77,7 +77,11 @@ fn resolve_and_link(
                 if let Some(id) = c.first().and_then(SyntaxApplication::as_str_or_none) {
                     if let Some(ToplevelDefinition::Object(tld)) = tlds.get(id) {
                         let mut tld_clone = tld.clone().resolve_class_reference(tlds);
-                        tld_clone.collect_supertypes(tlds)?;
+                        // The referenced object is not available while it is being resolved
+                        // itself: objects that refer to each other in a circle end here.
+                        let mut remaining = tlds.clone();
+                        remaining.remove(id);
+                        tld_clone.collect_supertypes(&remaining)?;
                         return Ok(Some(tld_clone));
                     }
                 }
